@@ -349,6 +349,12 @@ def directed_cases(rng, k0):
     out.append({"style": "slow-poll-directed", "A": [dict(f) for f in a], "B": [dict(f) for f in b], "mi": 30,
                 "md": 5.0, "start": -100, "end": 2000, "processes": 3, "bundle": None, "output": "memory",
                 "poll_sleep": 0.15, "delays": {"A:5": 1.2}})
+    # max_interval of more than a day (26 h): the files do not overlap, they lie 25 h apart; the two points are partners
+    a = [{"c0": 0, "c1": 599, "pts": [[100 * U + 3, 0.0, 0.0, 1], [300 * U, 70.0, 0.0, 90]]}]
+    b = [{"c0": 90000, "c1": 90599, "pts": [[90050 * U + 1, 0.0, 0.01, 1001], [90300 * U, -70.0, 0.0, 1090]]},
+         {"c0": 200000, "c1": 200599, "pts": [[200050 * U, 0.0, 0.0, 1002]]}]
+    out.append({"style": "max-interval-above-a-day", "A": a, "B": b, "mi": 93600, "md": 5.0, "start": -100, "end": 300000,
+                "processes": 1, "bundle": None, "output": "memory"})
     for i, c in enumerate(out):
         c.update({"id": k0 + i, "bad": None, "skip": False, "np_seed": 1})
         c.setdefault("delays", {})
